@@ -994,7 +994,7 @@ pub fn corr_line(sess: &Session, full: bool) -> Option<(String, String)> {
                     let nbits = (e.out_size * 8 + e.cb_after as u64) as i64 - e.cb_before as i64;
                     if nbits < 0 { return None; }
                     let start = (delivered_before as u64 + e.next_out_offset) * 8 + e.cb_before as u64;
-                    let emit = e.lf_after != e.lf_before || e.site == 2;
+                    let emit = e.lf_after == e.input_pos || e.site == 2; // nothing left unflushed
                     let bits = if full {
                         // pending bytes may not have been delivered by the end of the history
                         let mut v = vec![0u8; ((nbits as usize) + 7) / 8];
@@ -1006,7 +1006,7 @@ pub fn corr_line(sess: &Session, full: bool) -> Option<(String, String)> {
                         hex(&v)
                     } else { "-".into() };
                     tok.push_str(&format!("{}{}.{}.{}.{}", if k == 0 { ":" } else { "/" }, e.result as u8, emit as u8, nbits, bits));
-                    reqs.push_str(&format!("{}{}.{}.{}.{}.{}", if k == 0 { "" } else { "/" }, e.site, e.lp_before, e.input_pos, e.is_last as u8, e.force_flush as u8));
+                    reqs.push_str(&format!("{}{}.{}.{}.{}.{}", if k == 0 { "" } else { "/" }, e.site, if e.site == 2 { e.bytes } else { e.lp_before }, e.input_pos, e.is_last as u8, e.force_flush as u8));
                 }
                 if r.events.is_empty() { reqs.push('-'); }
                 ops.push_str(&tok);
